@@ -68,7 +68,7 @@ func (md *DIBasicType) LLString() string {
 		fields = append(fields, field)
 	}
 	if md.Encoding != 0 {
-		field := fmt.Sprintf("encoding: %s", md.Encoding)
+		field := fmt.Sprintf("encoding: %s", enumOrIntString(md.Encoding))
 		fields = append(fields, field)
 	}
 	if md.Flags != 0 {
@@ -212,7 +212,7 @@ func (md *DICompileUnit) LLString() string {
 		buf.WriteString("distinct ")
 	}
 	var fields []string
-	field := fmt.Sprintf("language: %s", md.Language)
+	field := fmt.Sprintf("language: %s", enumOrIntString(md.Language))
 	fields = append(fields, field)
 	field = fmt.Sprintf("file: %s", md.File)
 	fields = append(fields, field)
@@ -237,7 +237,7 @@ func (md *DICompileUnit) LLString() string {
 		fields = append(fields, field)
 	}
 	if md.EmissionKind != 0 {
-		field = fmt.Sprintf("emissionKind: %s", md.EmissionKind)
+		field = fmt.Sprintf("emissionKind: %s", enumOrIntString(md.EmissionKind))
 		fields = append(fields, field)
 	}
 	if md.Enums != nil {
@@ -275,7 +275,7 @@ func (md *DICompileUnit) LLString() string {
 		fields = append(fields, field)
 	}
 	if md.NameTableKind != 0 {
-		field = fmt.Sprintf("nameTableKind: %s", md.NameTableKind)
+		field = fmt.Sprintf("nameTableKind: %s", enumOrIntString(md.NameTableKind))
 		fields = append(fields, field)
 	}
 	if md.RangesBaseAddress {
@@ -1372,7 +1372,7 @@ func (md *DIMacro) LLString() string {
 		buf.WriteString("distinct ")
 	}
 	var fields []string
-	field := fmt.Sprintf("type: %s", md.Type)
+	field := fmt.Sprintf("type: %s", enumOrIntString(md.Type))
 	fields = append(fields, field)
 	if md.Line != 0 {
 		field := fmt.Sprintf("line: %d", md.Line)
@@ -1758,7 +1758,7 @@ func (md *DIStringType) LLString() string {
 		fields = append(fields, field)
 	}
 	if md.Encoding != 0 {
-		field := fmt.Sprintf("encoding: %s", md.Encoding)
+		field := fmt.Sprintf("encoding: %s", enumOrIntString(md.Encoding))
 		fields = append(fields, field)
 	}
 	fmt.Fprintf(buf, "!DIStringType(%s)", strings.Join(fields, ", "))
@@ -1895,7 +1895,7 @@ func (md *DISubprogram) LLString() string {
 		fields = append(fields, field)
 	}
 	if md.Virtuality != 0 {
-		field := fmt.Sprintf("virtuality: %s", md.Virtuality)
+		field := fmt.Sprintf("virtuality: %s", enumOrIntString(md.Virtuality))
 		fields = append(fields, field)
 	}
 	if md.VirtualIndex != 0 {
@@ -2068,7 +2068,7 @@ func (md *DISubroutineType) LLString() string {
 		fields = append(fields, field)
 	}
 	if md.CC != 0 {
-		field := fmt.Sprintf("cc: %s", md.CC)
+		field := fmt.Sprintf("cc: %s", enumOrIntString(md.CC))
 		fields = append(fields, field)
 	}
 	field := fmt.Sprintf("types: %s", md.Types)
